@@ -658,9 +658,9 @@ func (f *c09Fix) runSequence(nBlocks int) {
 				tw, _ := f.app.MarketKeeper.GetTwa(f.ctx, id)
 				f.setPrice(id, tw.Twa, !tw.IsPriceActive)
 				f.tr.Count("op:price-toggle")
-			case q < 83 && len(vaults) > 0: // interest accrues on a vault (what x/rewards does)
+			case q < 85 && len(vaults) > 0: // interest accrues on a vault (what x/rewards does)
 				v := vaults[rng.Intn(len(vaults))]
-				v.InterestAccumulated = v.InterestAccumulated.Add(sdk.NewInt(int64(rng.Range(1, 5000))))
+				v.InterestAccumulated = v.InterestAccumulated.Add(v.AmountOut.MulRaw(int64(rng.Range(1, 60))).QuoRaw(1000)).AddRaw(int64(rng.Range(0, 3)))
 				f.app.VaultKeeper.SetVault(f.ctx, v)
 				f.tr.Count("op:interest")
 			case q < 87: // emergency controls
@@ -724,6 +724,7 @@ func TestC09(t *testing.T) {
 	c09WitnessStarved(t, app, base, tr, 2, 1)
 	c09WitnessStarved(t, app, base, tr, 1, 3)
 	c09WitnessStarved(t, app, base, tr, 1, 2) // control: generation 1, another app id — vault 3 is seized in block 3
+	c09WitnessBorrowLeak(t, app, base, tr)
 
 	// ---- pure helper: GetSliceStartEndForLiquidations, exhaustive small and wide random
 	for l := -2; l <= 9; l++ {
@@ -1123,4 +1124,32 @@ func c09WitnessStarved(t *testing.T, app *chain.App, base sdk.Context, tr *Trace
 	}
 	_, still := f.app.VaultKeeper.GetVault(f.ctx, 3)
 	tr.Set(fmt.Sprintf("witness_starved_gen%d_app%d_vault3_still_open_after_12_blocks", gen, appID), still)
+}
+
+// D6 made concrete: the generation-2 borrow sweep is not wrapped. With the lend app whitelisted but neither auction type
+// activated, an unsafe borrow is flagged IsLiquidated and its collateral is moved to the auction account, then
+// CreateLockedVault fails — and everything written before the error stays: no locked vault, no auction, ever.
+func c09WitnessBorrowLeak(t *testing.T, app *chain.App, base sdk.Context, tr *Trace) {
+	ctx, _ := base.CacheContext()
+	f := c09Build(t, app, ctx, 2, NewRng(11), tr, true)
+	c09LendFixture(f)
+	f.setBatch(5)
+	for _, a := range f.apps {
+		f.setWl2(a, a != 3) // app 3 (lend): whitelisted, Dutch not activated (English never is)
+	}
+	tr.Line("liq.begin", "v2", "5", u(c09ProbeBorrowKey(f)))
+	f.block()
+	f.setPrice(f.lendCol, 1400000, true) // collateral 2.0 -> 1.4: every borrow taken at 62..70 % is now above its threshold
+	f.block()
+	f.block()
+	n := 0
+	ids, _ := f.app.LendKeeper.GetBorrows(f.ctx)
+	for _, id := range ids {
+		if b, ok := f.app.LendKeeper.GetBorrow(f.ctx, id); ok && b.IsLiquidated {
+			n++
+		}
+	}
+	_, aid := f.ids()
+	tr.Set("witness_borrow_leak_flagged_borrows", n)
+	tr.Set("witness_borrow_leak_auctions_opened", aid)
 }
